@@ -283,7 +283,7 @@ impl System for IndSys {
 						// does the implementation-following variant explain it? then it is the recorded discrepancy
 						let alt_ok = alt_v.as_ref().map(|a| a.get(i).map(|aq| !aq.is_defined() || aq.contains(*o)).unwrap_or(false)).unwrap_or(false);
 						let which = if alt_ok { "differs-from-documented-formula/equals-implementation-reading" } else if alt_v.is_some() { "differs-from-formula/and-from-implementation-reading" } else { "differs-from-formula" };
-						let f = Failure::new(format!("{name}/value#{i}/{which}{class}"), format!("value #{i} = {o:?}, formula {:?} ± {:.3e} (off by {:.3e})", q.v, q.r, (o - q.v).abs()));
+						let f = failure(format!("{name}/value#{i}/{which}{class}"), || format!("value #{i} = {o:?}, formula {:?} ± {:.3e} (off by {:.3e})", q.v, q.r, (o - q.v).abs()));
 						// the reference does not consume the implementation's values: exploration continues
 						if cont.is_none() {
 							cont = Some(f);
@@ -326,7 +326,7 @@ impl System for IndSys {
 							st.silent.fetch_add(1, Ordering::Relaxed);
 							if gs.is_some() && gs != Some(0) {
 								let which = alt_class(&alt_s, i, gs);
-								let f = Failure::new(format!("{name}/signal#{i}/fires-without-condition{which}"), format!("signal #{i} = {g:?}, documented rule says no signal (own values {own:?})"));
+								let f = failure(format!("{name}/signal#{i}/fires-without-condition{which}"), || format!("signal #{i} = {g:?}, documented rule says no signal (own values {own:?})"));
 								if cont.is_none() {
 									cont = Some(f);
 								}
@@ -347,7 +347,7 @@ impl System for IndSys {
 							if !ok {
 								let kind = if gs.is_none() || gs == Some(0) { "silent-although-condition-holds" } else if gs.map(|x| x.signum()) != Some(k.signum()) { "wrong-direction" } else { "wrong-strength" };
 								let which = alt_class(&alt_s, i, gs);
-								let f = Failure::new(format!("{name}/signal#{i}/{kind}{which}"), format!("signal #{i} = {g:?}, documented rule gives strength {k} (own values {own:?})"));
+								let f = failure(format!("{name}/signal#{i}/{kind}{which}"), || format!("signal #{i} = {g:?}, documented rule gives strength {k} (own values {own:?})"));
 								if cont.is_none() {
 									cont = Some(f);
 								}
@@ -377,6 +377,31 @@ fn sig_match(w: &Sig, gs: Option<i32>) -> Option<bool> {
 			Some(x) => x == *k,
 			None => *k == 0,
 		}),
+	}
+}
+
+thread_local! { static SIG_SEEN: std::cell::RefCell<std::collections::HashMap<String, u32>> = std::cell::RefCell::new(Default::default()); }
+/// A failure whose detail text is rendered only for the first 20 000 occurrences of its signature on
+/// this worker thread: recorded findings fire tens of millions of times in the deviation systems and
+/// rendering floats for every one of them dominated the run time. (A replay renders the detail again.)
+fn failure(sig: String, detail: impl FnOnce() -> String) -> Failure {
+	let n = SIG_SEEN.with(|m| {
+		let mut m = m.borrow_mut();
+		match m.get_mut(&sig) {
+			Some(c) => {
+				*c = c.saturating_add(1);
+				*c
+			}
+			None => {
+				m.insert(sig.clone(), 1);
+				1
+			}
+		}
+	});
+	if n <= 20_000 {
+		Failure::new(sig, detail())
+	} else {
+		Failure::new(sig, "(detail not rendered: more than 20000 occurrences of this signature on this worker; replay the path to see it)".to_string())
 	}
 }
 
